@@ -622,7 +622,7 @@ func main() {
 		for _, s := range []string{"code", "implicit", "refresh", "device", "token_exchange"} {
 			mand = append(mand, "id_token:"+s+":"+rn)
 		}
-		mand = append(mand, "jwt_access:"+rn, "opaque_access:"+rn, "userinfo_hook_restricted:"+rn, "id_scopes_dropped_by_client:"+rn)
+		mand = append(mand, "ring:id_token:"+rn, "jwt_access:"+rn, "opaque_access:"+rn, "userinfo_hook_restricted:"+rn, "id_scopes_dropped_by_client:"+rn)
 	}
 	for _, a := range keys.AllAlgs {
 		mand = append(mand, "alg:"+string(a))
